@@ -195,7 +195,10 @@ func verifFreeStyle(tag string, mode int) Style {
 		}
 		return st
 	}
-	if mode == 0 {
+	if mode == 3 {
+		// pair mode: both cells free over bold/dim/italic/blink (16 x 16 transitions)
+		st.Attribute = AttributeMask(zzverif.Uint8(tag+".attr")) & (AttrBold | AttrDim | AttrItalic | AttrBlink)
+	} else if mode == 0 {
 		st.Attribute = AttributeMask(zzverif.Uint8(tag+".attr")) & 0xFE
 		st.UnderlineStyle = UnderlineStyle(zzverif.Choose(tag+".ul", 6))
 	} else {
